@@ -907,3 +907,52 @@ def level_offset(ctx):
         ctx.require(st is not None and got == want, q, 'a wallet whose main key has depth %d turns level_offset=%r into %s, expected %r' % (depth, off, show(term(got))[:30], want), stmts[0],
                     'w.key_for_path([], w.depth_public_master + 1) on a wallet that holds the master key returns the private master key m instead of the account key: a watch-only wallet built from that "account key" cannot reproduce the addresses')
     ctx.floor(n, 7, 'offset scenarios')
+
+
+@PROP.obligation('C09.bulk-path-is-key', canaries=[
+    mut.replace_expr('wallets', 'Wallet.keys_for_path', 'parent_key.subkey_for_path(key_idx, network=network)', 'parent_key.subkey_for_path(key_idx.strip("\'"), network=network)', 'keys 2..n of a batch are derived without the hardened marker'),
+])
+def bulk_path_is_key(ctx):
+    """keys_for_path(..., number_of_keys=n) derives keys 2..n of a batch in one loop from the parent of the first key. One iteration of that
+    loop is evaluated for a hardened last level (key path m/account'/change'/address_index', KEY_PATH_BITCOINCORE) and for a normal one:
+    the child handed to WalletKey.from_key is parent_key.subkey_for_path(<x>) where <x> is exactly the last level of the path the key
+    is stored under (5' for .../5', 5 for .../5). A key stored as m/0'/0'/5' that really is m/0'/0'/5 is an address the seed does not
+    have at that path."""
+    q = 'wallets:Wallet.keys_for_path'
+    fn = ctx.repo.func(q)
+    loops = [n for n in ast.walk(fn) if isinstance(n, ast.For) and norm(n.iter) == 'keys_to_add']
+    if len(loops) != 1:
+        ctx.undecided('keys_for_path: %d loops over keys_to_add, expected 1' % len(loops))
+    loop = loops[0]
+    PK = ('var', 'parent_key')
+    n = 0
+    for hardened, start in ((True, "m/0'/0'/4'"), (False, "m/84'/0'/0'/0/4")):
+        seen = []
+
+        def from_key(it, a, kw, st, node):
+            seen.append(dict(kw))
+            return S(('var', 'wallet_key'))
+        it = Interp(ctx.repo, 'wallets', hooks={'WalletKey.from_key': from_key})
+        st = State(env={'self': S(SELF), 'key_idx': '5', 'hardened_child': hardened, 'parent_key': S(PK), 'newpath': start, 'new_key_id': 10, 'new_keys': [], 'network': 'bitcoin',
+                        'account_id': 0, 'change': 0, 'purpose': 84, 'parent_id': 3, 'encoding': 'bech32', 'witness_type': 'segwit', 'cosigner_id': None})
+        it.frames.append([])
+        try:
+            end = it.exec_block(loop.body, st)
+        except AnalysisError as e:
+            ctx.undecided('keys_for_path: bulk iteration (hardened=%s) not evaluable: %s' % (hardened, str(e)[:100]))
+        it.frames.pop()
+        if end is None or len(seen) != 1:
+            ctx.undecided('keys_for_path: bulk iteration (hardened=%s) creates %d keys, expected 1' % (hardened, len(seen)))
+        kw = seen[0]
+        key_t, path = term(kw.get('key')), kw.get('path')
+        path = path if isinstance(path, str) else show(term(path))
+        arg = None
+        if isinstance(key_t, tuple) and len(key_t) >= 4 and key_t[0] == 'mcall' and key_t[1] == PK and key_t[2] == 'subkey_for_path' and key_t[3]:
+            arg = key_t[3][0]
+        n += 1
+        exp_last = "5'" if hardened else '5'
+        ctx.saw('last level %s: stored under path %s, derived with parent_key.subkey_for_path(%r)' % ('hardened' if hardened else 'normal', path, arg))
+        ctx.require(path == start.rsplit('/', 1)[0] + '/' + exp_last, q, 'key 2 of a batch that starts at %s is stored under path %s, expected .../%s' % (start, path, exp_last), loop)
+        ctx.require(arg == path.rsplit('/', 1)[-1], q, 'key 2..n of a batch: stored under path %s but derived with subkey_for_path(%r)' % (path, arg), loop,
+                    "new_keys / get_keys / scan with number_of_keys > 1 on a wallet with key path m/account'/change'/address_index' store m/0'/0'/5' for the NON-hardened child m/0'/0'/5: addresses Bitcoin Core does not derive")
+    ctx.floor(n, 2, 'bulk iterations')
